@@ -4,7 +4,7 @@ The MAC is computed over zero-padded data, so dropping trailing 0x00 bytes of th
 exact reads are a *necessary* condition of "truncated files are rejected" / "length fields match the bytes present"."""
 from __future__ import annotations
 
-from bfsa.guard import disjuncts, dominates, raise_rel, unsnap
+from bfsa.guard import disjuncts, dominates, raise_rel, rel, unsnap
 from bfsa.layout import meth_call
 from bfsa.load import FuncInfo
 from bfsa.symexec import Exec
@@ -46,9 +46,20 @@ def rule_exact_reads(prog, chk, pid):
                         if x.op == "len" and unsnap(x.args[0]) is val and y.op == "param" and y.args[0] == size_p:
                             if op == "NotEq" or (op == "Lt" and x is a):
                                 good = True
+            # ... or the return itself sits under `if len(result) == size:` (the raise then follows the if)
+            for f in ret.ctx:
+                if f[0] != "if":
+                    continue
+                r_ = rel(f[1], bool(f[2]))
+                for d in ([r_] if r_[0] == "rel" else r_[1] if r_[0] == "and" else []):
+                    if d[0] == "rel" and d[1] == "Eq" and d[3] is not None:
+                        a, b = unsnap(d[2]), unsnap(d[3])
+                        for x, y in ((a, b), (b, a)):
+                            if x.op == "len" and unsnap(x.args[0]) is val and y.op == "param" and y.args[0] == size_p:
+                                good = True
             if not good:
                 ok = False
-                why = "a return of read() is not dominated by a guard `len(result) != size -> raise`"
+                why = "a return of read() is neither dominated by a guard `len(result) != size -> raise` nor conditional on `len(result) == size`"
             mc = meth_call(val)
             if not (mc and mc[1] == "read"):
                 ok = ok and True
